@@ -56,8 +56,11 @@ def dense(rng, raster, tmax=None, nmin=0):
 
 
 class FGen(seqgen.Gen):
-    def __init__(self, *a, **kw):
+    def __init__(self, *a, twins=False, **kw):
         super().__init__(*a, **kw)
+        # twins: re-used connected events may be rescaled by 1 + 2e-8 -> same [GRADIENTS] line, different first/last
+        # (legitimate for C01; excluded for C02's fixed point: KF-15)
+        self.twins = twins
         self.gr = self.sys.grad_raster_time
         self.rfr = self.sys.rf_raster_time
         self.br = self.sys.block_duration_raster
@@ -281,9 +284,16 @@ class FGen(seqgen.Gen):
                 cands = [e for e in self.pool if float(e.first) == f and (D is None or abs(e.shape_dur - D) < 1e-12)
                          and (not final or float(e.last) == 0)]
                 if cands and r.random() < 0.75:
-                    e = r.choice(cands)
-                    reuse[ch] = e
+                    e = copy.deepcopy(r.choice(cands))
                     D = float(e.shape_dur)
+                    if self.twins and r.random() < 0.35:
+                        sc = 1 + r.choice([2e-8, -3e-8, 5e-8])
+                        e.waveform = np.asarray(e.waveform, dtype=float) * sc
+                        e.first, e.last = float(e.first) * sc, float(e.last) * sc
+                        if hasattr(e, 'area'):
+                            e.area = e.area * sc
+                        self.n_twins = getattr(self, 'n_twins', 0) + 1
+                    reuse[ch] = e
         plan = {}
         for attempt in range(2):
             plan = {}
@@ -373,16 +383,9 @@ def random_sequence(rng, system=None, n_blocks=None, use_block_cache=True, **kw)
             stored += 1
         except Exception:
             pass
-    # user definitions: numbers, vectors, strings
-    if rng.random() < 0.6:
-        seq.set_definition('FOV', [rng.choice([0.25, 0.256, 0.2200001]), 0.25, rng.choice([0.003, 0.0030000004])])
-    if rng.random() < 0.5:
-        seq.set_definition('Name', rng.choice(['gre', 'epi_3d test', 'x']))
-    if rng.random() < 0.3:
-        seq.set_definition('MaxAdcSegmentLength', rng.choice([1000, 8192]))
-    if rng.random() < 0.3:
-        seq.set_definition('kappa', rng.choice([1.23456789012, -0.000123456789123, 1e-9, 123456789.5]))
+    random_definitions(rng, seq)
     seq._gen_reused = getattr(g, 'n_reused', 0)
+    seq._gen_twins = getattr(g, 'n_twins', 0)
     return seq, stored, system
 
 
@@ -398,3 +401,115 @@ def shared_gradient_corpus():
     seq.add_block(up('x'), up('y'))
     seq.add_block(dn('x'), dn2('y'))
     return seq, 2, s
+
+
+# ---- user definitions ---------------------------------------------------------------------------------------------
+# What the [DEFINITIONS] section can carry through write -> read -> write byte-identically (established on the
+# unchanged tree, see C02.DEF_BASELINE): every Python int / float (any magnitude up to 1e308; ints and floats are both
+# printed with 9 significant digits), lists / tuples / float arrays of them, and every string that (a) is not empty,
+# (b) has no white space at either end, (c) has no line break, (d) has at least one blank-separated token that float()
+# rejects.  Known-finding classes (one fixed reproducer each, never drawn at random): strings violating (a)-(d);
+# NumPy integer / float32 values (printed with str() instead of 9 digits; repaired by /tmp/c01c02_fix2.patch).
+def numeric_token(t):
+    try:
+        float(t)
+        return True
+    except ValueError:
+        return False
+
+
+def string_roundtrips(s):
+    if s == '' or s != s.strip() or '\n' in s or '\r' in s:
+        return False
+    return not all(numeric_token(t) for t in s.split(' '))
+
+
+WORDS = ['gre', 'epi', 'TE', '4.2', 'ms', '3T', 'scanner', 's\u00e9q', '\u00fc', '\u65e5\u672c', 'x=3', '#1', '[a]', '1abc',
+         'v1.4.2', '\u03b1', '18', '1e5', 'nan', 'a,b', '%d', "it's", '"q"', '0x10', '-', '+']
+SEPS = [' ', ' ', ' ', '  ', '   ', '\t', ' \t ', '\t\t', '      ']
+
+
+def rand_string(rng):
+    for _ in range(20):
+        n = rng.randint(1, 5)
+        s = rng.choice(WORDS)
+        for _ in range(n - 1):
+            s += rng.choice(SEPS) + rng.choice(WORDS)
+        if string_roundtrips(s):
+            return s
+    return 'note'
+
+
+def rand_int(rng):
+    d = rng.randint(1, 12)
+    v = rng.randint(10 ** (d - 1), 10 ** d - 1) if rng.random() < 0.8 else rng.choice([0, 10 ** (d - 1), 10 ** d - 1, 2 ** 31, 2 ** 32 - 1])
+    return -v if rng.random() < 0.3 else v
+
+
+def rand_float(rng):
+    u = rng.random()
+    if u < 0.2:
+        return rng.choice([1.2345e-7, 6.02214076e23, 1e-300, 1e300, 2.5e-9, -4.9e-5])
+    if u < 0.4:
+        return float(rand_int(rng))                                 # exactly integral
+    if u < 0.6:
+        return rng.choice([1 / 3, 2 / 3, 0.1, 123456789.5, 1.23456789012, 0.30000000000000004, -7.000000001])
+    return rng.uniform(-1, 1) * 10 ** rng.randint(-12, 12)
+
+
+def rand_number(rng):
+    return rand_int(rng) if rng.random() < 0.5 else rand_float(rng)
+
+
+def rand_def_value(rng):
+    u = rng.random()
+    if u < 0.22:
+        return rand_int(rng)
+    if u < 0.4:
+        return rand_float(rng)
+    if u < 0.6:
+        n = rng.randint(1, 5)
+        vals = [rand_number(rng) for _ in range(n)]
+        k = rng.random()
+        if k < 0.4:
+            return vals
+        if k < 0.6:
+            return tuple(vals)
+        return np.array([float(v) for v in vals], dtype=float)
+    if u < 0.65:
+        w = ['gre', 'epi', 'TE', 'ms', 'scanner', '3T']            # text pieces (never numeric-looking)
+        return [rng.choice(w), rand_int(rng)] if rng.random() < 0.5 else [rng.choice(w), rng.choice(w)]
+    return rand_string(rng)
+
+
+DEF_KEYS = ['FOV', 'Name', 'Seed', 'TimeStamp', 'Note', 'kappa', 'MaxAdcSegmentLength', 'SliceThickness', 'Protocol', 'a',
+            'Z_last', 'b2', 'Operator', '_x', 'TE', 'TR']
+
+
+def random_definitions(rng, seq):
+    if rng.random() < 0.5:
+        seq.set_definition('FOV', [rng.choice([0.25, 0.256, 0.2200001]), 0.25, rng.choice([0.003, 0.0030000004])])
+    for key in rng.sample(DEF_KEYS[1:], rng.choice([0, 1, 2, 3, 5])):
+        seq.set_definition(key, rand_def_value(rng))
+
+
+def used_reader(rng, sysr, tmpdir):
+    """a reading Sequence object with prior content: it has already read another file (written by another system,
+    holding labels / triggers / gradients / RF) or has been built with add_block before it reads the file under test"""
+    import os
+    import pypulseq as pp
+    s2 = pp.Sequence(sysr, use_block_cache=rng.random() < 0.6)
+    if rng.random() < 0.6:
+        primer, n, _ = random_sequence(rng, n_blocks=rng.randint(2, 5))
+        if n:
+            fn = os.path.join(tmpdir, 'primer.seq')
+            primer.write(fn, create_signature=False, check_timing=False)
+            s2.read(fn)
+    else:
+        g = FGen(rng, sysr)
+        for _ in range(rng.randint(1, 4)):
+            try:
+                s2.add_block(*g.free_block())
+            except Exception:  # noqa: BLE001
+                pass
+    return s2
